@@ -1061,6 +1061,7 @@ func (e *SpecEnv) trNamedCall(name string, args []Expr) Val {
 	if e.heapParams == nil && e.fr != nil {
 		if si.rec || sf.Opaque {
 			e.specFrameAxiom(sf, si, curHeaps)
+			e.specCallFrame(sf, si, curHeaps, 0)
 		}
 		byKey := map[string]string{}
 		for i, k := range si.heaps {
@@ -1084,6 +1085,7 @@ func (e *SpecEnv) trNamedCall(name string, args []Expr) Val {
 			}
 			if ok && d != si {
 				e.specFrameAxiom(d.sf, d, hs)
+				e.specCallFrame(d.sf, d, hs, 0)
 			}
 		}
 	}
@@ -1426,4 +1428,65 @@ func (e *SpecEnv) specFrameAxiom(sf *SpecFunc, si *specInst, cur []string) {
 	rhs := "(" + si.name + " " + fuelArg + strings.Join(append(append([]string{}, names...), entry...), " ") + ")"
 	fr.assumeR(fmt.Sprintf("(forall (%s%s) (! (=> %s (= %s %s)) :pattern (%s) :pattern (%s)))", fuelBinder, strings.Join(binders, " "), and(guard...), lhs, rhs, lhs, rhs))
 	c.assumed["meta: recursive spec functions read only cells reachable from their arguments (frame axiom for "+sf.Name+")"] = true
+}
+
+// specCallFrame: across a call whose callee modifies nothing of a sort, a
+// recursive/opaque spec function applied to data that existed before the call
+// has the same value in the post-call heaps as in the pre-call heaps.
+func (e *SpecEnv) specCallFrame(sf *SpecFunc, si *specInst, cur []string, depth int) {
+	c := e.c
+	fr := e.fr
+	if depth > 4 {
+		return
+	}
+	var info heapPrevInfo
+	found := false
+	prev := append([]string{}, cur...)
+	for i, h := range cur {
+		hp, ok := c.heapPrev[h]
+		if !ok {
+			continue
+		}
+		if !found {
+			info, found = hp, true
+		}
+		if hp.preAlloc == info.preAlloc {
+			prev[i] = hp.prev
+		}
+	}
+	if !found {
+		return
+	}
+	key := "speccall|" + si.name + "|" + strings.Join(cur, ",")
+	if fr.frameDone[key] {
+		return
+	}
+	fr.frameDone[key] = true
+	var binders, names, guard []string
+	for i, p := range sf.Params {
+		t := si.params[i]
+		n := "a_" + p.Name
+		binders = append(binders, fmt.Sprintf("(%s %s)", n, c.sortOf(t)))
+		names = append(names, n)
+		switch t.Underlying().(type) {
+		case *types.Slice:
+			guard = append(guard, fmt.Sprintf("(< (sobj %s) %s)", n, info.preAlloc))
+		case *types.Pointer:
+			guard = append(guard, fmt.Sprintf("(< (pobj %s) %s)", n, info.preAlloc))
+		default:
+			if isRefType(t) {
+				return
+			}
+		}
+	}
+	fuelArg, fuelBinder := "", ""
+	if si.rec {
+		fuelArg, fuelBinder = "fu ", "(fu Fuel) "
+		c.declOnce("fuel", "(declare-datatypes ((Fuel 0)) (((FZ) (FS (fpred Fuel)))))")
+	}
+	lhs := "(" + si.name + " " + fuelArg + strings.Join(append(append([]string{}, names...), cur...), " ") + ")"
+	rhs := "(" + si.name + " " + fuelArg + strings.Join(append(append([]string{}, names...), prev...), " ") + ")"
+	c.assume(implies(info.reach, fmt.Sprintf("(forall (%s%s) (! (=> %s (= %s %s)) :pattern (%s) :pattern (%s)))", fuelBinder, strings.Join(binders, " "), and(guard...), lhs, rhs, lhs, rhs)))
+	c.assumed["meta: spec functions read only cells reachable from their arguments (call frame axiom for "+sf.Name+")"] = true
+	e.specCallFrame(sf, si, prev, depth+1)
 }
